@@ -63,3 +63,24 @@ Proof.
     - rewrite H in E. cbn in E. injection E as <- _. auto. }
   specialize (IH m1 H0). destruct (mrun m1 r). exact IH.
 Qed.
+
+(* ---- several lookups ending together ---- *)
+Lemma lookup_done_public m v :
+  let '(m1, p) := mstep m (MLookupDone v) in
+  match p with Some a => m_public m1 = Some a /\ m_firewalled m1 = true | None => m1 = m end.
+Proof.
+  destruct v as [a|]; cbn [mstep]; [|reflexivity].
+  destruct (omaddr_eqb (m_public m) (Some a)); cbn; auto.
+Qed.
+
+(* whichever lookups end together and in whatever order they are gone through: the address that is probed is the
+   address the node holds afterwards, held as unconfirmed (firewalled) until the probe comes back *)
+Theorem probed_address_is_the_adopted_one votes : forall m,
+  let '(m', p) := last_change m votes in
+  match p with Some a => m_public m' = Some a /\ m_firewalled m' = true | None => m' = m end.
+Proof.
+  induction votes as [|v r IH]; intros m; cbn [last_change]; [reflexivity|].
+  pose proof (lookup_done_public m v) as H1. destruct (mstep m (MLookupDone v)) as [m1 p1].
+  specialize (IH m1). destruct (last_change m1 r) as [m2 p2].
+  destruct p2 as [a|]; [exact IH|]. subst m2. exact H1.
+Qed.
